@@ -188,6 +188,19 @@ func c18Nums() []c18Num {
 			d.Negative = neg
 			return d
 		})
+		// a coefficient that itself holds a negative big.Int (apd leaves the result of arithmetic on it open; marshaling must still leave it alone)
+		addDec(sg+"coeff -12345 (negative big.Int) exp -2", cl, func() *apd.Decimal {
+			d := apd.New(0, -2)
+			d.Coeff.SetInt64(-12345)
+			d.Negative = neg
+			return d
+		})
+		addDec(sg+"coeff -2^80 (negative big.Int) exp 1", cl, func() *apd.Decimal {
+			d := apd.New(0, 1)
+			d.Coeff.Neg(new(big.Int).Lsh(big.NewInt(1), 80))
+			d.Negative = neg
+			return d
+		})
 	}
 	return out
 }
@@ -439,6 +452,10 @@ func (g *c18Gen) bigDec() *apd.Decimal {
 		d.Coeff.SetInt64(0)
 	case 4:
 		d.Coeff.Mul(&d.Coeff, big.NewInt(1000))
+	case 5:
+		if g.r.Intn(3) == 0 {
+			d.Coeff.Neg(&d.Coeff)
+		}
 	}
 	d.Negative = g.r.Intn(2) == 0
 	return d
